@@ -600,10 +600,16 @@ package decorator
 // the file set and writes only the file decorator's own tables.
 //@ func (f *fileDecorator) fragment
 //@ modifies allbut(map(ast.Node, dst.Node); map(dst.Node, ast.Node); heap(Decorator.Map); heap(fileDecorator.Decorator); heap(Decorator.Resolver); heap(Decorator.Path); heap(Decorator.Filenames); heap(Decorator.Fset); map(*dst.File, string); heap(fileDecorator.before); heap(fileDecorator.after); heap(fileDecorator.decorations); map(*ast.Object, *dst.Object); map(*dst.Object, *ast.Object); map(*ast.Scope, *dst.Scope); map(*dst.Scope, *ast.Scope))
+//@ requires fresh: f.fragsFresh()
+//@ ensures fresh: f.fragsFresh()
+//@ loop * invariant fresh: f.fragsFresh()
 
 // The generated fragment collector (decorator-fragment-generated.go) recurses over the ast with the same frame.
 //@ func (f *fileDecorator) addNodeFragments
 //@ modifies allbut(map(ast.Node, dst.Node); map(dst.Node, ast.Node); heap(Decorator.Map); heap(fileDecorator.Decorator); heap(Decorator.Resolver); heap(Decorator.Path); heap(Decorator.Filenames); heap(Decorator.Fset); map(*dst.File, string); heap(fileDecorator.before); heap(fileDecorator.after); heap(fileDecorator.decorations); map(*ast.Object, *dst.Object); map(*dst.Object, *ast.Object); map(*ast.Scope, *dst.Scope); map(*dst.Scope, *ast.Scope))
+//@ requires fresh: f.fragsFresh()
+//@ ensures fresh: f.fragsFresh()
+//@ loop * invariant fresh: f.fragsFresh()
 
 
 //@ func (f *fileDecorator) link
@@ -693,6 +699,10 @@ package decorator
 //@   (forall j int, k int :: {f.fragments[j], f.fragments[k]} 0 <= j && j < k && k < len(f.fragments) ==> ref(f.fragments[j]) != ref(f.fragments[k]))
 //@ }
 
+//@ pred (f *fileDecorator) fragsFresh() bool {
+//@   f.fragsDistinct() && (forall m int :: {f.fragments[m]} 0 <= m && m < len(f.fragments) ==> fragUnattached(f.fragments[m]))
+//@ }
+
 //@ func (f *fileDecorator) findIndentedComments
 //@ requires distinct: f.fragsDistinct()
 //@ requires from: 0 <= from
@@ -753,3 +763,76 @@ package decorator
 //@ loop 1 invariant list_kept: len(frags) == old(len(frags)) && (forall j int :: {frags[j]} 0 <= j && j < len(frags) ==> frags[j] == old(frags[j]))
 //@ ensures attached: forall j int :: {frags[j]} 0 <= j && j < len(frags) ==> (fragIsComment(frags[j]) || fragIsNewline(frags[j]) ==> fragAttached(frags[j]) == dec)
 //@ ensures others_untouched: forall x fragment :: {fragAttached(x)} (forall j int :: {frags[j]} 0 <= j && j < len(frags) ==> frags[j] != x) ==> fragAttached(x) == old(fragAttached(x))
+
+// The fragment interface: both methods only read the fragment. Each implementing method carries the
+// same clause and is verified against it (the machinery checks that every implementer has one).
+//@ func (v fragment) Position
+//@ modifies nothing
+//@ func (v fragment) Newline
+//@ modifies nothing
+//@ func (v *tokenFragment) Position
+//@ modifies nothing
+//@ func (v *stringFragment) Position
+//@ modifies nothing
+//@ func (v *commentFragment) Position
+//@ modifies nothing
+//@ func (v *newlineFragment) Position
+//@ modifies nothing
+//@ func (v *decorationFragment) Position
+//@ modifies nothing
+//@ func (v *badFragment) Position
+//@ modifies nothing
+//@ func (v *tokenFragment) Newline
+//@ modifies nothing
+//@ func (v *stringFragment) Newline
+//@ modifies nothing
+//@ func (v *commentFragment) Newline
+//@ modifies nothing
+//@ func (v *newlineFragment) Newline
+//@ modifies nothing
+//@ func (v *decorationFragment) Newline
+//@ modifies nothing
+//@ func (v *badFragment) Newline
+//@ modifies nothing
+
+// Building the fragment list: every fragment is a new object (so the list never repeats one) and is
+// born unattached; sorting permutes the list.
+//@ func (f *fileDecorator) addDecorationFragment
+//@ requires fresh: f.fragsFresh()
+//@ modifies f.fragments, elems(fragment), newobjects
+//@ ensures fresh: f.fragsFresh()
+//@ ensures one_more: len(f.fragments) == old(len(f.fragments)) + 1
+
+//@ func (f *fileDecorator) addTokenFragment
+//@ requires fresh: f.fragsFresh()
+//@ modifies f.fragments, f.cursor, elems(fragment), newobjects
+//@ ensures fresh: f.fragsFresh()
+//@ ensures one_more: len(f.fragments) == old(len(f.fragments)) + 1
+
+//@ func (f *fileDecorator) addStringFragment
+//@ requires fresh: f.fragsFresh()
+//@ modifies f.fragments, f.cursor, elems(fragment), newobjects
+//@ ensures fresh: f.fragsFresh()
+//@ ensures one_more: len(f.fragments) == old(len(f.fragments)) + 1
+
+//@ func (f *fileDecorator) addBadFragment
+//@ requires fresh: f.fragsFresh()
+//@ modifies f.fragments, f.cursor, elems(fragment), newobjects
+//@ ensures fresh: f.fragsFresh()
+//@ ensures one_more: len(f.fragments) == old(len(f.fragments)) + 1
+
+//@ func (f *fileDecorator) addCommentFragment
+//@ requires fresh: f.fragsFresh()
+//@ modifies f.fragments, elems(fragment), newobjects
+//@ ensures fresh: f.fragsFresh()
+//@ ensures one_more: len(f.fragments) == old(len(f.fragments)) + 1
+
+//@ func (f *fileDecorator) addNewlineFragment
+//@ requires fresh: f.fragsFresh()
+//@ modifies f.fragments, elems(fragment), newobjects
+//@ ensures fresh: f.fragsFresh()
+//@ ensures one_more: len(f.fragments) == old(len(f.fragments)) + 1
+
+//@ func fragment$1
+//@ attr inline
+//@ loop * invariant fresh: f.fragsFresh()
